@@ -446,6 +446,15 @@ fn apply_actions(sc: &Sc, m: &mut Machine, done: &mut Vec<bool>, ctx: &mut Ctx, 
             "render" => {
                 render_check(&mut m.ax, ctx, "boundary", oracles);
             }
+            "resize_code" => {
+                // the host grows the code area: the end of the *initial* code stays where execution finishes
+                let len = from_hex(&sc.code).len() as u64;
+                let r = catch(|| m.ax.mem_resize_section(sc.code_start, len + a.area));
+                ctx.event("host:resize_code", &format!("{:?}", matches!(r, Ok(Ok(())))));
+                if matches!(r, Ok(Ok(()))) {
+                    ctx.fault("code_area_resized");
+                }
+            }
             "prot" => {
                 let target = if a.area == 1 { m.stack_start.unwrap_or(0) } else { a.area };
                 let r = catch(|| m.ax.mem_prot(target, a.prot));
@@ -460,13 +469,83 @@ fn apply_actions(sc: &Sc, m: &mut Machine, done: &mut Vec<bool>, ctx: &mut Ctx, 
 }
 
 /// Call the three renderers; they must return and must not change the machine.
+/// every number a line of rendered text mentions, whatever its notation (0x.., ..h, decimal)
+fn numbers_in(line: &str) -> Vec<u64> {
+    let mut out = Vec::new();
+    for tok in line.split(|c: char| !c.is_ascii_alphanumeric()) {
+        if tok.is_empty() {
+            continue;
+        }
+        let t = tok.to_ascii_lowercase();
+        if let Some(h) = t.strip_prefix("0x") {
+            if let Ok(v) = u64::from_str_radix(h, 16) {
+                out.push(v);
+            }
+        }
+        if let Some(h) = t.strip_suffix('h') {
+            if let Ok(v) = u64::from_str_radix(h, 16) {
+                out.push(v);
+            }
+        }
+        if let Ok(v) = t.parse::<u64>() {
+            out.push(v);
+        }
+    }
+    out
+}
+
+/// trace() is what a user reads: it must say what the recorded entries say - one line per entry, in
+/// order, naming the entry's source and target address and, for a collapsed repetition, its count.
+/// Notation and decoration are free.
+fn trace_text_mismatch(ax: &Axecutor, text: &str) -> Option<String> {
+    let entries = ax.verif_trace();
+    let lines: Vec<&str> = text.lines().filter(|l| !l.trim().is_empty()).collect();
+    if lines.len() != entries.len() {
+        return Some(format!("{} lines for {} recorded entries", lines.len(), entries.len()));
+    }
+    for (k, (e, l)) in entries.iter().zip(lines.iter()).enumerate() {
+        let nums = numbers_in(l);
+        if !nums.contains(&e.target) {
+            return Some(format!("line {k} {l:?} does not name target {:#x}", e.target));
+        }
+        if e.instr_ip != 0 && !nums.contains(&e.instr_ip) {
+            return Some(format!("line {k} {l:?} does not name source {:#x}", e.instr_ip));
+        }
+        if e.count > 1 && !nums.contains(&(e.count as u64)) {
+            return Some(format!("line {k} {l:?} does not carry count {}", e.count));
+        }
+    }
+    None
+}
+
+fn call_stack_text_mismatch(ax: &Axecutor, text: &str) -> Option<String> {
+    let cs = ax.verif_call_stack();
+    let lines: Vec<&str> = text.lines().filter(|l| !l.trim().is_empty()).collect();
+    if lines.len() < cs.len() {
+        return Some(format!("{} lines for {} frames", lines.len(), cs.len()));
+    }
+    for (k, addr) in cs.iter().enumerate() {
+        if !numbers_in(lines[k]).contains(addr) {
+            return Some(format!("line {k} {:?} does not name frame {addr:#x}", lines[k]));
+        }
+    }
+    None
+}
+
 pub fn render_check(ax: &mut Axecutor, ctx: &mut Ctx, context: &str, report: bool) -> bool {
     let before = observe(ax).digest();
     let mut any_panic = false;
     let neg = ax.verif_trace().iter().any(|t| t.level < 0);
     let lvl = if neg { "negative_level" } else { "nonnegative_level" };
-    match catch(|| ax.trace().map(|s| s.len())) {
-        Ok(_) => {}
+    match catch(|| ax.trace()) {
+        Ok(Ok(text)) => {
+            if report {
+                if let Some(why) = trace_text_mismatch(ax, &text) {
+                    ctx.dev("C18", "C18|render_text|trace_differs_from_recorded_trace".into(), format!("trace() text does not say what the recorded entries say ({context}): {why}"));
+                }
+            }
+        }
+        Ok(Err(_)) => {}
         Err(p) => {
             any_panic = true;
             if report {
@@ -474,8 +553,15 @@ pub fn render_check(ax: &mut Axecutor, ctx: &mut Ctx, context: &str, report: boo
             }
         }
     }
-    match catch(|| ax.call_stack().map(|s| s.len())) {
-        Ok(_) => {}
+    match catch(|| ax.call_stack()) {
+        Ok(Ok(text)) => {
+            if report {
+                if let Some(why) = call_stack_text_mismatch(ax, &text) {
+                    ctx.dev("C18", "C18|render_text|call_stack_differs_from_recorded_stack".into(), format!("call_stack() text does not say what the recorded frames say ({context}): {why}"));
+                }
+            }
+        }
+        Ok(Err(_)) => {}
         Err(p) => {
             any_panic = true;
             if report {
@@ -845,7 +931,10 @@ fn drive_step(sc: &Sc, rng_seed: u64, ctx: &mut Ctx, oracles: bool, record_diges
                     if hook_stopped && *ret {
                         ctx.dev("C12", "C12|stop|step_reports_running".into(), "a hook stopped the run but step() returned true".into());
                     }
-                    if steps % 16 == 0 {
+                    // rendering costs O(depth^2) characters: thin it out on deep runs
+                    let weight = m.ax.verif_call_stack().len() + tracer.entries.len();
+                    let stride = if weight < 256 { 16 } else if weight < 2048 { 256 } else { 4096 };
+                    if steps % stride == 0 {
                         render_check(&mut m.ax, ctx, "boundary", true);
                     }
                 }
@@ -1117,6 +1206,10 @@ fn c12_check(
         return (hook_failed, hook_stopped, before_stopped);
     }
     let instr_failed = matches!(out, StepOut::Err(_)) && !hook_failed;
+    if instr_failed && is_trap(ins.mnemonic()) && (m.reg.before.get(mn_name).map(|l| !l.is_empty()).unwrap_or(false) || m.reg.after.get(mn_name).map(|l| !l.is_empty()).unwrap_or(false)) {
+        // SYSCALL / INT only fail for lack of a hook; every registration the host was told succeeded must count
+        ctx.dev("C12", format!("C12|registered_hook_not_effective|{mn_name}"), format!("{mn_name} failed although hooks are registered for it (a registration that returned Ok installed nothing?): {out:?}").chars().take(400).collect());
+    }
     let mut mismatch = false;
     if obs_before != pred_before {
         mismatch = true;
